@@ -455,4 +455,76 @@ example : (CalArgs.mk (some [737455]) none none none).isDefault = false ∧
     ∀ op ∈ [("UK", CalArgs.mk none none none none), ("US", CalArgs.mk (some []) none none none)],
       op.1 = "UK" → op.2.isDefault = true := by decide
 
+/-! ### Calendar.drange(t0, t1, 'kb') for other k (generated; the property text names '1b') -/
+
+/-- any `k ≠ 0`, against the table: python's `range(i0, i1 + k, k)` many entries, the `i`-th one the table entry at
+position `i0 + k·i`, where `i0`, `i1` are the table positions of the adjusted endpoints -/
+theorem drange_kb (c : Cal) (x y k : Int) (lk : List Int) (h : c.drangeB x y k = .ok lk) :
+    ∃ i0 i1 : Nat, c.bdays[i0]? = some (c.adjust c.adj x) ∧ c.bdays[i1]? = some (c.adjust c.adj y) ∧ k ≠ 0 ∧
+      lk.length = pyRangeLen i0 (i1 + k) k ∧
+      ∀ i : Nat, i < lk.length → 0 ≤ (i0 : Int) + i * k ∧ lk[i]? = c.bdays[((i0 : Int) + i * k).toNat]? := by
+  obtain ⟨i0, i1, _, _, h0, h1, hk, len, get⟩ := drangeB_spec c x y k lk h
+  exact ⟨i0, i1, h0, h1, hk, len, get⟩
+
+/-- every k-th business day, k ≥ 1: at every position of the `'1b'` list, `l_k[i] = l_1[k·i]` (the `'kb'` list may have
+one more entry, see `drange_kb_overshoot`) -/
+theorem drange_kb_every_kth (c : Cal) (x y k : Int) (lk l1 : List Int) (hk : 1 ≤ k)
+    (hK : c.drangeB x y k = .ok lk) (h1 : c.drangeB x y 1 = .ok l1) :
+    ∀ i : Nat, k.toNat * i < l1.length → lk[i]? = l1[k.toNat * i]? := by
+  obtain ⟨i0, i1, c0, c1, _, _, _, len, get⟩ := drangeB_spec c x y k lk hK
+  obtain ⟨j0, j1, d0, d1, _, _, _, len1, get1⟩ := drangeB_spec c x y 1 l1 h1
+  rw [c0] at d0; rw [c1] at d1
+  cases d0; cases d1
+  intro i hi
+  have e : ((k.toNat * i : Nat) : Int) = (i : Int) * k := by
+    rw [Int.natCast_mul, Int.toNat_of_nonneg (by omega), Int.mul_comm]
+  have g1 := (get1 (k.toNat * i) hi).2
+  have hlt : i < lk.length := by
+    rw [len]
+    rw [len1] at hi
+    unfold pyRangeLen at hi ⊢
+    have hk0 : k > 0 := by omega
+    simp only [hk0, if_true]
+    have h10 : (1 : Int) > 0 := by omega
+    simp only [h10, if_true, Int.ediv_one] at hi
+    have : ((i : Int) + 1) ≤ ((i1 : Int) + k - i0 + k - 1) / k := by
+      rw [Int.le_ediv_iff_mul_le hk0, Int.add_mul]
+      omega
+    omega
+  have g := (get i hlt).2
+  rw [g, g1, e]
+  simp
+
+
+/-- `drange(x, y, '-1b')` walks the business days backwards: it is the reverse of `drange(y, x, '1b')` -/
+theorem drange_neg1b_reverse (c : Cal) (x y : Int) (lr l1 : List Int)
+    (hR : c.drangeB x y (-1) = .ok lr) (h1 : c.drangeB y x 1 = .ok l1) : lr = l1.reverse := by
+  obtain ⟨i0, i1, c0, c1, _, _, _, len, get⟩ := drangeB_spec c x y (-1) lr hR
+  obtain ⟨j0, j1, d0, d1, _, _, _, len1, get1⟩ := drangeB_spec c y x 1 l1 h1
+  rw [c1] at d0; rw [c0] at d1
+  cases d0; cases d1
+  have hn : ¬ ((-1 : Int) > 0) := by omega
+  have h10 : (1 : Int) > 0 := by omega
+  unfold pyRangeLen at len len1
+  simp only [hn, if_false, h10, if_true, Int.ediv_one, Int.neg_neg] at len len1
+  apply List.ext_getElem?
+  intro i
+  by_cases hi : i < lr.length
+  · have hi1 : l1.length - 1 - i < l1.length := by omega
+    rw [List.getElem?_reverse (by omega), (get i hi).2, (get1 _ hi1).2]
+    congr 1
+    omega
+  · rw [List.getElem?_eq_none (by omega), List.getElem?_eq_none (by simp; omega)]
+
+/-- for k > 1 the list can end on a business day AFTER the adjusted right endpoint (`range(i0, i1 + k, k)` overshoots
+when `k` does not divide `i1 - i0`): in `jan`, `drange(Mon 6 Jan, Thu 9 Jan, '2b')` = [6 Jan, 8 Jan, 10 Jan] -/
+theorem drange_kb_overshoot :
+    jan.drangeB 737430 737433 2 = .ok [737430, 737432, 737434] ∧ jan.adjust jan.adj 737433 = 737433 := ⟨by rfl, by decide⟩
+
+/-- the hypotheses of `drange_kb_every_kth` / `drange_neg1b_reverse` are satisfiable -/
+example : jan.drangeB 737430 737440 3 = .ok [737430, 737433, 737438, 737441] ∧
+    jan.drangeB 737430 737440 1 = .ok [737430, 737431, 737432, 737433, 737434, 737437, 737438, 737439, 737440] :=
+  ⟨by rfl, by rfl⟩
+example : jan.drangeB 737440 737430 (-1) = .ok [737440, 737439, 737438, 737437, 737434, 737433, 737432, 737431, 737430] := by rfl
+
 end Pyg.Props.C05
